@@ -377,7 +377,9 @@ def run(ctx):
                "first-order error model: a branch is well conditioned iff the amplification factor of its inner primitive is bounded (kappaA/kappaB)")
     ctx.trust("translator T1 tie/translate_utils.py (fail-closed Python-ast walker); its output is exercised by the correspondence")
     ok = ctx.regen("LogSpaceGen", translate_utils.generate)
-    if ok and ctx.build(["Props/C20.vo"]):
+    model_ok = ok and ctx.build(["Gen/LogSpaceGen.vo"], label="executable model")
+    if model_ok and ctx.build(["Props/C20.vo"]):
         ctx.props()
+    if model_ok:
         correspondence(ctx, utils)
     search(ctx, utils)
